@@ -45,6 +45,7 @@ type Frame struct {
 	panicked *goPanic
 	loops    map[*ssa.BasicBlock]int
 	skipPhis bool
+	prevOverride *ssa.BasicBlock
 }
 
 type fnInfo struct {
@@ -128,6 +129,8 @@ type Exec struct {
 	inMerge       bool
 	pendingPhi    []phiVal
 	pcSet         map[*Term]bool
+	spc           []*Term
+	unaryBy       map[string][]*Term
 	vsets         map[string]*byteSet
 	entangled     map[string]bool
 }
@@ -214,8 +217,39 @@ func (ex *Exec) unary(c *Term) (anyTrue, anyFalse bool) {
 	return
 }
 
+// The solver sees a sliced path condition (ex.spc): every multi-symbol conjunct, and the unary
+// conjuncts of exactly those 8-bit symbols that occur in some multi-symbol conjunct (appended when
+// the symbol first becomes entangled, so that ex.spc only ever grows along a path and the solver's
+// assertion stack is reused). Unary constraints on symbols that nothing else mentions cannot
+// influence an answer; when a query literal itself mentions such a symbol, its unary conjuncts are
+// folded into the literal.
+func (ex *Exec) sliced(pc []*Term, c *Term) ([]*Term, *Term) {
+	if c != nil {
+		seen := map[*Term]bool{}
+		syms := map[string]uint8{}
+		Syms(c, seen, syms)
+		for n := range syms {
+			if !ex.entangled[n] {
+				for _, u := range ex.unaryBy[n] {
+					c = ex.ts.BAnd(c, u)
+				}
+			}
+		}
+	}
+	return ex.spc, c
+}
+
+func (ex *Exec) solve(c *Term) SatResult {
+	pc, c2 := ex.sliced(ex.pc, c)
+	return ex.w.solver.Check(pc, c2)
+}
+
 func (ex *Exec) noteConjunct(c *Term) {
 	if c.single != nil {
+		ex.unaryBy[c.single.name] = append(ex.unaryBy[c.single.name], c)
+		if ex.entangled[c.single.name] {
+			ex.spc = append(ex.spc, c)
+		}
 		bs := ex.vsetOf(c.single)
 		tab := c.table()
 		for v := 0; v < 256; v++ {
@@ -240,9 +274,18 @@ func (ex *Exec) noteConjunct(c *Term) {
 	seen := map[*Term]bool{}
 	out := map[string]uint8{}
 	Syms(c, seen, out)
+	names := make([]string, 0, len(out))
 	for n := range out {
-		ex.entangled[n] = true
+		names = append(names, n)
 	}
+	sort.Strings(names)
+	for _, n := range names {
+		if !ex.entangled[n] {
+			ex.entangled[n] = true
+			ex.spc = append(ex.spc, ex.unaryBy[n]...)
+		}
+	}
+	ex.spc = append(ex.spc, c)
 }
 
 func (ex *Exec) addPC(c *Term) {
@@ -338,7 +381,7 @@ func (ex *Exec) branch(c *Term) bool {
 		}
 		fmt.Fprintf(os.Stderr, "Q %s single=%v | %s\n", tail(ex.callStack, 1), c.single != nil, str)
 	}
-	rt := ex.w.solver.Check(ex.pc, c)
+	rt := ex.solve(c)
 	if rt == Unknown {
 		ex.w.noteUnknown("branch feasibility")
 	}
@@ -346,7 +389,7 @@ func (ex *Exec) branch(c *Term) bool {
 		ex.decisions = append(ex.decisions, decForcedFalse)
 		return false
 	}
-	rf := ex.w.solver.Check(ex.pc, nc)
+	rf := ex.solve(nc)
 	if rf == Unknown {
 		ex.w.noteUnknown("branch feasibility")
 	}
@@ -385,7 +428,7 @@ func (ex *Exec) assume(c *Term) {
 		return
 	}
 	if ex.frontier() {
-		r := ex.w.solver.Check(ex.pc, c)
+		r := ex.solve(c)
 		if r == Unsat {
 			ex.end("assumed", "")
 		}
@@ -412,14 +455,26 @@ func (ex *Exec) concretize(t *Term, max int, what string) uint64 {
 		return uint64(v)
 	}
 	var vals []int64
-	pc2 := append([]*Term{}, ex.pc...)
+	var pc2 []*Term
 	// read the value through a fresh constant: evaluating a declared constant in the model is
 	// much cheaper for the solver than evaluating a defined term
 	ex.symSeq["casesplit"]++
 	probe := ex.ts.Sym(t.w, fmt.Sprintf("casesplit#%d.%d", len(ex.decisions), ex.symSeq["casesplit"]))
 	pc2 = append(pc2, ex.ts.mk(OpEq, 0, probe, t, nil, 0, ""))
+	{
+		seen := map[*Term]bool{}
+		syms := map[string]uint8{}
+		Syms(t, seen, syms)
+		for n := range syms {
+			if !ex.entangled[n] {
+				// the split term depends on this symbol: its unary constraints matter
+				ex.entangled[n] = true
+				ex.spc = append(ex.spc, ex.unaryBy[n]...)
+			}
+		}
+	}
 	for {
-		r := ex.w.solver.Check(pc2, nil)
+		r := ex.w.solver.Check(append(append([]*Term{}, ex.spc...), pc2...), nil)
 		if r == Unknown {
 			ex.w.noteUnknown("case split")
 			break
@@ -808,6 +863,10 @@ func (ex *Exec) runBlocks(fr *Frame, start *ssa.BasicBlock) {
 	for block != nil {
 		next := ex.runBlock(fr, block, prev)
 		prev = block
+		if fr.prevOverride != nil {
+			prev = fr.prevOverride
+			fr.prevOverride = nil
+		}
 		block = next
 	}
 }
@@ -870,6 +929,13 @@ func (ex *Exec) runBlock(fr *Frame, b *ssa.BasicBlock, prev *ssa.BasicBlock) *ss
 			}
 			if nb, ok := ex.tryMerge(fr, b, c); ok {
 				return nb
+			}
+			if t, f, disj, ok := ex.caseChain(fr, b, c); ok {
+				if ex.branch(disj) {
+					return t
+				}
+				fr.prevOverride = f.prev
+				return f.blk
 			}
 			if ex.branch(c) {
 				return b.Succs[0]
@@ -2227,3 +2293,52 @@ func (ex *Exec) selectInstr(fr *Frame, i *ssa.Select) Value {
 var _ = strings.Join
 
 var qlog = os.Getenv("VERIF_QLOG") != ""
+
+type chainEnd struct {
+	blk, prev *ssa.BasicBlock
+}
+
+// caseChain collapses `case a, b, c:` chains: consecutive blocks that only compare and branch to the
+// same target are evaluated as one disjunction (the comparisons are pure and cannot panic).
+func (ex *Exec) caseChain(fr *Frame, b *ssa.BasicBlock, c *Term) (*ssa.BasicBlock, chainEnd, *Term, bool) {
+	target := b.Succs[0]
+	if len(target.Instrs) > 0 {
+		if _, isPhi := target.Instrs[0].(*ssa.Phi); isPhi {
+			return nil, chainEnd{}, nil, false
+		}
+	}
+	disj := c
+	cur := b
+	f := b.Succs[1]
+	n := 0
+	for {
+		if f == target || len(f.Preds) != 1 || len(f.Instrs) != 2 {
+			break
+		}
+		cmp, ok1 := f.Instrs[0].(*ssa.BinOp)
+		iff, ok2 := f.Instrs[1].(*ssa.If)
+		if !ok1 || !ok2 || iff.Cond != cmp || f.Succs[0] != target {
+			break
+		}
+		switch cmp.Op {
+		case token.EQL, token.NEQ, token.LSS, token.LEQ, token.GTR, token.GEQ:
+		default:
+			return nil, chainEnd{}, nil, false
+		}
+		x, okx := ex.get(fr, cmp.X).(*Term)
+		y, oky := ex.get(fr, cmp.Y).(*Term)
+		if !okx || !oky {
+			break
+		}
+		v := ex.binop(cmp.Op, x, y, cmp.X.Type(), cmp.Y.Type()).(*Term)
+		ex.set(fr, cmp, v)
+		disj = ex.ts.BOr(disj, v)
+		cur = f
+		f = f.Succs[1]
+		n++
+	}
+	if n == 0 {
+		return nil, chainEnd{}, nil, false
+	}
+	return target, chainEnd{blk: f, prev: cur}, disj, true
+}
